@@ -67,7 +67,7 @@ def unit_files_for(prop):
         allp = set(sc.get("properties", []))
         for v in sc.get("lemma_props", {}).values():
             allp.update(v)
-        for f in sc.get("fn", []) + sc.get("arm", []):
+        for f in sc.get("fn", []) + sc.get("arm", []) + sc.get("closure_fn", []):
             allp.update(f.get("props", []))
         if prop in allp or prop == "ALL":
             r.append((p, sc))
@@ -297,6 +297,9 @@ def main(argv=None):
         import engine_s
 
         rs, info = engine_s.run_for(prop, scratch, outdir)
+        results += rs
+        infos += info
+        rs, info = engine_s.run_frames(prop, scratch, outdir)
         results += rs
         infos += info
 
